@@ -42,8 +42,8 @@ KEYS = Contract(
     module=M, qualname="Table.keys", params=dict(self=TTab, exclude_columns=TBool), result=TSet,
     ensures=[("non-column-keys", lambda o, n, r: z3.Implies(o.exclude_columns.t, z3.ForAll(
         [k], r.has(k) == z3.And(o.self._data.has(k), z3.Not(o.self._col_names.has(k))), patterns=[r.has(k)])))],
-    defaults=dict(exclude_columns=lambda: PyBool(False)), trusted=True,
-    note="assumed: keys(exclude_columns=True) == set(_data) - set(_col_names) (one line of set arithmetic)")
+    defaults=dict(exclude_columns=lambda: PyBool(False)), min_obligations=1, extra=dict(ENG),
+    note="keys(exclude_columns=True) == set(_data) - set(_col_names); the other branch returns the dict's key view (opaque, no claim)")
 
 
 # ----------------------------------------------------------------------------- _select_rows
